@@ -416,7 +416,7 @@ Definition enc_seq (e : encoding) : kseq :=
 
 Definition enc_spec (u : uni) (e : encoding) : option key :=
   match e with
-  | EPrint g => Some (print_spec u g)
+  | EPrint g => match g with [] => None | _ => Some (print_spec u g) end
   | EC0 b => if in_range b 0 31 then Some (c0_spec b) else None
   | EEsc c => Some (mkKey [] c 0 0 ModAlt 0)
   | ESs3 c => match lookup1 ss3_spec c with Some k => Some (mkKey [] k 0 0 0 0) | None => None end
@@ -612,3 +612,174 @@ Definition c09_mstring_violations (cases : list mstring_case) : list Z :=
     | Some (_, _, direct) => negb (Bool.eqb obs direct)
     | None => false
     end) cases.
+
+(* ================= cross-protocol: chords and their encodings ================= *)
+(* A chord is a key (a printable ASCII character as typed without Shift, or a Key* constant) with a
+   set of modifiers (no lock bits).  [legacy_encs] lists what a terminal in legacy (xterm) mode sends
+   for it, [kitty_encs] what a terminal in kitty keyboard mode may send (any progressive-enhancement
+   flags: with or without alternate codes, base-layout code, associated text, explicit press event,
+   lock bits).  A chord is both-expressible when its legacy list is non-empty and the legacy byte
+   string is injective: it is the encoding of no other chord. *)
+Record chord := mkChord { ch_code : Z; ch_mods : Z }.
+
+Definition is_lower_ascii (c : Z) : bool := in_range c 97 122.
+Definition printable_nonupper (c : Z) : bool := in_range c 32 126 && negb (in_range c 65 90).
+(* ESC c is deliverable as one escape sequence: c is not an intermediate (0x20-0x2F) and does not
+   start a control string or CSI/SS3 ( [ \ ] ^ _ and, upper-cased, O P X ) *)
+Definition alt_ok (c : Z) : bool := in_range c 48 126 && negb (in_range c 65 95).
+Definition alt_shift_ok (c : Z) : bool :=
+  is_lower_ascii c && negb ((c =? 111) || (c =? 112) || (c =? 120)).
+(* Ctrl+letter whose C0 byte is not also Tab (i), Enter (m) or Backspace (h); Ctrl+\ and Ctrl+] *)
+Definition ctrl_ok (c : Z) : bool :=
+  (is_lower_ascii c && negb ((c =? 104) || (c =? 105) || (c =? 109))) || (c =? 92) || (c =? 93).
+
+Definition keys_of (t : list (Z * Z)) (k : Z) : list Z :=
+  map fst (filter (fun e => snd e =? k) t).
+
+Definition legacy_tilde : list (Z * Z) := filter (fun e => fst e <? 100) tilde_spec.
+
+Definition legacy_encs (c : chord) : list kseq :=
+  let k := ch_code c in
+  let m := ch_mods c in
+  if in_range k 32 126 then
+    if (m =? 0) && printable_nonupper k then [SPrint [k]]
+    else if (m =? 1) && is_lower_ascii k then [SPrint [k - 32]]
+    else if (m =? 2) && alt_ok k then [SESC [] k]
+    else if (m =? 3) && alt_shift_ok k then [SESC [] (k - 32)]
+    else if (m =? 4) && ctrl_ok k then [SC0 (if is_lower_ascii k then k - 96 else k - 64)]
+    else []
+  else if k =? KeyTab then
+    (if m =? 0 then [SC0 9] else if m =? 1 then [SCSI [] [] 90; SCSI [] [[1]; [2]] 90] else [])
+  else if k =? KeyEnter then (if m =? 0 then [SC0 13] else [])
+  else if k =? KeyEsc then (if m =? 0 then [SC0 27] else [])
+  else if k =? KeyBackspace then
+    (if m =? 0 then [SPrint [127]; SC0 8] else if m =? 2 then [SESC [] 127] else [])
+  else if in_range m 0 63 then
+    flat_map (fun fin => if m =? 0 then SCSI [] [] fin :: (if existsb (Z.eqb fin) (keys_of ss3_spec k) then [SSS3 fin] else [])
+                         else [SCSI [] [[1]; [m + 1]] fin]) (keys_of letter_spec k)
+    ++ map (fun n => if m =? 0 then SCSI [] [[n]] 126 else SCSI [] [[n]; [m + 1]] 126) (keys_of legacy_tilde k)
+  else [].
+
+(* one kitty report: number n, final, alternates, modifiers m with lock bits l, explicit press
+   event or not, text or not *)
+Definition kitty_seq (n fin : Z) (alts : list Z) (m l : Z) (ev : bool) (tx : option (list Z)) : list kseq :=
+  let p0 := n :: alts in
+  let p1 := if ev then [m + l + 1; 1] else [m + l + 1] in
+  match tx with
+  | Some t => [SCSI [] [p0; p1; t] fin]
+  | None =>
+      if (m + l =? 0) && negb ev
+      then SCSI [] [p0; p1] fin :: SCSI [] [p0] fin ::
+           (if (n =? 1) && negb (fin =? 117) && negb (fin =? 126) && (match alts with [] => true | _ => false end) then [SCSI [] [] fin] else [])
+      else [SCSI [] [p0; p1] fin]
+  end.
+
+Definition kitty_f_numbers (k : Z) : list Z :=
+  map (fun e => fst (fst e)) (filter (fun e => snd e =? k) (number_from 117 57376 (firstn 8 kitty_f13_f35))).
+
+Definition bools := [false; true].
+
+Definition kitty_encs (c : chord) : list kseq :=
+  let k := ch_code c in
+  let m := ch_mods c in
+  if in_range k 32 126 then
+    let shifted := is_lower_ascii k && Z.testbit m 0 in
+    let altss := [[]; [0; k]] ++ (if shifted then [[k - 32]; [k - 32; k]] else []) in
+    let txs := None :: (if (m =? 0) then [Some [k]] else if (m =? 1) && is_lower_ascii k then [Some [k - 32]] else []) in
+    flat_map (fun alts => flat_map (fun tx => flat_map (fun l => flat_map (fun ev =>
+      kitty_seq k 117 alts m l ev tx) bools) [0; 128]) txs) altss
+  else
+    let forms :=
+      if (k =? KeyTab) || (k =? KeyEnter) || (k =? KeyEsc) || (k =? KeyBackspace) then [(k, 117)]
+      else map (fun fin => (1, fin)) (keys_of letter_spec k)
+           ++ map (fun n => (n, 126)) (keys_of legacy_tilde k)
+           ++ map (fun n => (n, 117)) (kitty_f_numbers k) in
+    flat_map (fun nf => flat_map (fun l => flat_map (fun ev =>
+      kitty_seq (fst nf) (snd nf) [] m l ev None) bools) [0; 64; 128; 192]) forms.
+
+(* the chords both protocols express unambiguously (fixed before any result was looked at) *)
+Definition named_chord_keys : list Z :=
+  [KeyUp; KeyDown; KeyRight; KeyLeft; KeyKeyPadBegin; KeyEnd; KeyHome; KeyInsert; KeyDelete; KeyPgUp; KeyPgDown;
+   KeyF01; KeyF02; KeyF03; KeyF04; KeyF05; KeyF06; KeyF07; KeyF08; KeyF09; KeyF10; KeyF11; KeyF12;
+   KeyF13; KeyF14; KeyF15; KeyF16; KeyF17; KeyF18; KeyF19; KeyF20].
+
+Fixpoint zrange (a : Z) (n : nat) : list Z :=
+  match n with O => [] | S n' => a :: zrange (a + 1) n' end.
+
+Definition both_expressible : list chord :=
+  filter (fun c => match legacy_encs c with [] => false | _ => true end)
+    (flat_map (fun k => map (mkChord k) [0; 1; 2; 3; 4]) (zrange 32 95)
+     ++ [mkChord KeyTab 0; mkChord KeyTab 1; mkChord KeyEnter 0; mkChord KeyEsc 0; mkChord KeyBackspace 0; mkChord KeyBackspace 2]
+     ++ flat_map (fun k => map (mkChord k) (zrange 0 64)) named_chord_keys).
+
+(* recorded findings, excluded by explicit guards:
+   - esc-upper: Alt+Shift+letter, legacy ESC <upper-case letter>, is decoded as Alt+<upper-case letter>
+     without Shift and without lower-casing;
+   - kitty-shift-without-alternate: Shift+letter reported by kitty without the shifted alternate code
+     does not match the binding of the upper-case letter, which the legacy byte does. *)
+Definition guard_esc_upper (c : chord) : bool := in_range (ch_code c) 32 126 && (ch_mods c =? 3).
+Definition guard_shift_noalt (c : chord) (sk : kseq) : bool :=
+  in_range (ch_code c) 32 126 && Z.testbit (ch_mods c) 0 &&
+  match sk with
+  | SCSI _ ((_ :: s :: _) :: _) _ => s =? 0
+  | _ => true
+  end.
+Definition cross_guard (c : chord) (sk : kseq) : bool := negb (guard_esc_upper c) && negb (guard_shift_noalt c sk).
+
+(* two key events that are indistinguishable for String() *)
+Definition kstr_equivb (a b : key) : bool :=
+  (k_code a =? k_code b) && zlist_eqb (mods_prefix a) (mods_prefix b) &&
+  (Bool.eqb (has_bit (k_mods a) ModCapsLock) (has_bit (k_mods b) ModCapsLock)
+   || (MaxRune <? k_code a) || (k_code a <? 32)
+   || (k_code a =? KeySpace) || (k_code a =? KeyBackspace)).
+
+(* ... and for Matches against every binding with a non-zero rune: same code, shifted code and
+   modifiers up to locks; the base-layout code may be absent or equal to the key code; the text may be
+   absent or the key itself when the key is an ASCII character other than A-Z *)
+Definition safe_text_code (c : Z) : bool := printable_nonupper c.
+Definition kmatch_equivb (a b : key) : bool :=
+  (k_code a =? k_code b) && (k_shifted a =? k_shifted b) && (strip_locks (k_mods a) =? strip_locks (k_mods b)) &&
+  ((k_base a =? k_base b) ||
+   (((k_base a =? 0) || (k_base a =? k_code a)) && ((k_base b =? 0) || (k_base b =? k_code b)))) &&
+  (zlist_eqb (k_text a) (k_text b) ||
+   (safe_text_code (k_code a) &&
+    (zlist_eqb (k_text a) [] || zlist_eqb (k_text a) [k_code a]) &&
+    (zlist_eqb (k_text b) [] || zlist_eqb (k_text b) [k_code b]))).
+
+(* the runes decodeKey asks the oracle about *)
+Definition in_dom (r : Z) : bool := in_range r 0 127 || (r <? 0) || (MaxRune <? r).
+Definition seq_dom_ok (s : kseq) : bool :=
+  in_dom (seq_first_rune s) && in_dom (k_code (decode_pre ascii_uni s)).
+
+Definition cross_pair_ok (c : chord) (sl sk : kseq) : bool :=
+  seq_dom_ok sl && seq_dom_ok sk &&
+  (negb (cross_guard c sk) ||
+   (kstr_equivb (decode_key ascii_uni sl) (decode_key ascii_uni sk) &&
+    kmatch_equivb (decode_key ascii_uni sl) (decode_key ascii_uni sk))).
+
+Definition cross_all_ok : bool :=
+  forallb (fun c => forallb (fun sl => forallb (fun sk => cross_pair_ok c sl sk) (kitty_encs c)) (legacy_encs c)) both_expressible.
+
+(* cross stream: (chord, legacy sequence, kitty sequence, String() of both decoded keys, a list of
+   bindings (rune, mods, Matches on the legacy key, Matches on the kitty key)) *)
+Definition cross_case := (chord * kseq * kseq * list Z * list Z * list (Z * Z * bool * bool))%type.
+
+Definition c09_cross_mismatches (cases : list cross_case) : list Z :=
+  bad_indices (fun cs =>
+    let '(c, sl, sk, strl, strk, bs) := cs in
+    let kl := decode_key ascii_uni sl in
+    let kk := decode_key ascii_uni sk in
+    negb (existsb (kseq_eqb sl) (legacy_encs c)) || negb (existsb (kseq_eqb sk) (kitty_encs c))
+    || negb (seq_dom_ok sl && seq_dom_ok sk)
+    || negb (zlist_eqb (key_string ascii_uni kl) strl) || negb (zlist_eqb (key_string ascii_uni kk) strk)
+    || negb (forallb (fun b => let '(r, mods, ol, ok) := b in
+                               in_dom r && Bool.eqb (matches ascii_uni kl r mods) ol && Bool.eqb (matches ascii_uni kk r mods) ok) bs)) cases.
+
+Definition c09_cross_violations (cases : list cross_case) : list Z :=
+  bad_indices (fun cs =>
+    let '(c, sl, sk, strl, strk, bs) := cs in
+    negb (zlist_eqb strl strk)
+    || negb (forallb (fun b => let '(r, mods, ol, ok) := b in (r =? 0) || Bool.eqb ol ok) bs)) cases.
+(* the cases under the guards of the recorded findings *)
+Definition c09_cross_known (cases : list cross_case) : list Z :=
+  bad_indices (fun cs => let '(c, sl, sk, _, _, _) := cs in negb (cross_guard c sk)) cases.
